@@ -10,7 +10,7 @@ FALSIFIED_KINDS = [
     "postcondition not satisfied", "assertion failed", "invariant not satisfied", "precondition not satisfied",
     "possible arithmetic underflow/overflow", "possible division by zero", "decreases not satisfied",
     "possible bit shift underflow/overflow", "recommendation not met", "loop invariant",
-    "unreachable", "index out of bounds", "possible", "might fail",
+    "unreachable", "index out of bounds", "possible", "might fail", "requires not satisfied",
 ]
 RESOURCE_KINDS = ["rlimit", "resource limit", "timed out", "timeout"]
 
